@@ -615,6 +615,8 @@ type orgCtx struct {
 	seen  map[ssa.Value]bool
 	depth int
 	subst map[*ssa.Parameter]string // helper parameters rendered as the caller's argument
+	// fields of a helper parameter whose argument is a fresh composite literal of the caller: what the caller stored there
+	substField map[*ssa.Parameter]map[string]string
 }
 
 // orgSubst renders v like org, with the given parameters replaced by the given strings (a value of a helper frame
@@ -749,6 +751,11 @@ func (o *orgCtx) org(v ssa.Value) string {
 		}
 		return x.Op.String() + o.org(x.X)
 	case *ssa.FieldAddr:
+		if prm, ok := x.X.(*ssa.Parameter); ok {
+			if s, ok := o.substField[prm][fieldName(x.X.Type(), x.Field)]; ok {
+				return s
+			}
+		}
 		return o.org(x.X) + "." + fieldName(x.X.Type(), x.Field)
 	case *ssa.Field:
 		return o.org(x.X) + "." + fieldName(x.X.Type(), x.Field)
@@ -782,6 +789,9 @@ func (o *orgCtx) org(v ssa.Value) string {
 			}
 			return "ok(" + o.org(t) + ")"
 		case *ssa.Call:
+			if r, ok := o.transparentOrg(t, x.Index); ok {
+				return r
+			}
 			return fmt.Sprintf("%s#%d", o.org(t), x.Index)
 		}
 		return fmt.Sprintf("extract(%s)#%d", o.org(x.Tuple), x.Index)
@@ -793,6 +803,14 @@ func (o *orgCtx) org(v ssa.Value) string {
 		}
 		for _, a := range cc.Args {
 			args = append(args, o.org(a))
+		}
+		// a single-result transparent helper is rendered as the value it hands back, in the caller's terms
+		if x.Type() != nil {
+			if _, isTuple := x.Type().(*types.Tuple); !isTuple {
+				if r, ok := o.transparentOrg(x, 0); ok {
+					return r
+				}
+			}
 		}
 		n := calleeName(x)
 		n = strings.TrimPrefix(n, "iface:")
@@ -1480,4 +1498,154 @@ func rangedLiteralElems(v ssa.Value, at ssa.Instruction) []ssa.Value {
 		}
 	}
 	return []ssa.Value{raw}
+}
+
+// transparent helpers: an unexported module function whose results are, on every return that can carry a nil error,
+// the same SSA values (no phi merge, no second success return with other values), and which stores nothing outside
+// its own locals. Returns that certainly fail (error known non-nil there) are ignored. Such a helper adds conditions
+// but no choice of provenance, so org() renders "helper(args)#i" as the i-th of those values in the caller's terms:
+// rules keyed on access paths see through a thin forwarding or checked-assertion helper, and keep reporting a helper
+// that remembers, defaults or selects (its success returns disagree).
+var transparentMemo = map[*ssa.Function][]ssa.Value{}
+
+// helpers that rules refer to by name (they have a rule of their own that pins what they return)
+var opaqueAnchors = map[string]string{
+	"in_toto.decodeAndParse": "R-C19-4 pins its results (first PEM block, try-all parser); R-C07-5, R-C15-2 and R-C19-7 name it",
+}
+var curProg *Prog
+
+func transparentResults(g *ssa.Function) []ssa.Value {
+	if g == nil || g.Blocks == nil || g.Pkg == nil || !strings.HasPrefix(g.Pkg.Pkg.Path(), modPath) || g.Parent() != nil || curProg == nil {
+		return nil
+	}
+	if g.Object() == nil || g.Object().Exported() {
+		return nil
+	}
+	if r, ok := transparentMemo[g]; ok {
+		return r
+	}
+	transparentMemo[g] = nil
+	if _, anchored := opaqueAnchors[fname(g)]; anchored {
+		return nil
+	}
+	for _, b := range g.Blocks {
+		for _, in := range b.Instrs {
+			switch y := in.(type) {
+			case *ssa.MapUpdate, *ssa.Send, *ssa.Go, *ssa.Defer, *ssa.Panic:
+				return nil
+			case *ssa.Store:
+				al, ok := addrRoot(y.Addr).(*ssa.Alloc)
+				if !ok || (al.Heap && al.Comment != "varargs" && al.Comment != "complit" && al.Comment != "slicelit") {
+					// named results and locals live in non-heap allocs; a heap alloc is fine only as a literal / varargs
+					if !ok {
+						return nil
+					}
+				}
+			case *ssa.Call:
+				// a call that may write through a parameter makes the helper more than a view of its arguments
+				n := genericBase(calleeName(y))
+				if _, w := a4ExternalWriters[n]; w || n == "builtin:delete" || n == "builtin:copy" || n == "builtin:clear" {
+					return nil
+				}
+			}
+		}
+	}
+	ei := errIndex(g)
+	var vals []ssa.Value
+	var dead []bool // result positions that are not one fixed view on every success return
+	for _, r := range returnsOf(g) {
+		if ei >= 0 && ei < len(r.Results) && !curProg.mayBeNilErr(r.Results[ei], r.Block(), 0) {
+			continue // certainly failing
+		}
+		cur := make([]ssa.Value, len(r.Results))
+		for i, res := range r.Results {
+			cur[i] = resolve(res, r)
+		}
+		if vals == nil {
+			vals = cur
+			dead = make([]bool, len(cur))
+			continue
+		}
+		for i := range cur {
+			if i != ei && cur[i] != vals[i] {
+				dead[i] = true
+			}
+		}
+	}
+	if vals == nil {
+		return nil
+	}
+	// a result that is just a constant says nothing about provenance, and a result the helper builds itself (a fresh
+	// map, slice, struct or closure) or selects (phi) is no view of the arguments: that position keeps the helper's name
+	any := false
+	for i, v := range vals {
+		if i == ei || dead[i] {
+			vals[i] = nil
+			continue
+		}
+		if _, isConst := v.(*ssa.Const); isConst {
+			vals[i] = nil
+			continue
+		}
+		fresh := derives(v, func(x ssa.Value) bool {
+			switch x.(type) {
+			case *ssa.Alloc, *ssa.MakeMap, *ssa.MakeSlice, *ssa.MakeClosure, *ssa.MakeChan, *ssa.Phi:
+				return true
+			}
+			return false
+		}, true)
+		if fresh {
+			vals[i] = nil
+			continue
+		}
+		any = true
+	}
+	if !any {
+		return nil
+	}
+	transparentMemo[g] = vals
+	return vals
+}
+
+// transparentOrg renders result idx of the call x of a transparent helper in the caller's terms ("" if x is none).
+func (o *orgCtx) transparentOrg(x *ssa.Call, idx int) (string, bool) {
+	g := x.Common().StaticCallee()
+	vals := transparentResults(g)
+	if vals == nil || idx >= len(vals) || vals[idx] == nil || o.depth >= 20 {
+		return "", false
+	}
+	if ei := errIndex(g); ei == idx {
+		return "", false
+	}
+	sub := map[*ssa.Parameter]string{}
+	subF := map[*ssa.Parameter]map[string]string{}
+	actual := callArgs(x)
+	for i, prm := range g.Params {
+		if i < len(actual) {
+			sub[prm] = o.org(actual[i])
+			// argument is a composite literal built by the caller: its fields hold what the caller stored
+			if al, ok := actual[i].(*ssa.Alloc); ok && al.Comment == "complit" {
+				fm := map[string]string{}
+				cnt := map[string]int{}
+				for _, r := range *al.Referrers() {
+					if fa, ok := r.(*ssa.FieldAddr); ok {
+						for _, rr := range *fa.Referrers() {
+							if st, ok := rr.(*ssa.Store); ok && st.Addr == fa {
+								fn := fieldName(fa.X.Type(), fa.Field)
+								cnt[fn]++
+								fm[fn] = o.org(st.Val)
+							}
+						}
+					}
+				}
+				for k, n := range cnt {
+					if n != 1 {
+						delete(fm, k)
+					}
+				}
+				subF[prm] = fm
+			}
+		}
+	}
+	return (&orgCtx{seen: map[ssa.Value]bool{}, depth: o.depth, subst: sub, substField: subF}).org(vals[idx]), true
 }
